@@ -15,6 +15,7 @@ import Holpy.C15.Proofs.TermBase
 import Holpy.C15.Proofs.Backjump
 import Holpy.C15.Proofs.Rank
 import Holpy.C15.Proofs.MainTerm
+import Holpy.C15.Proofs.ReplayComplete
 import Holpy.C15.Proofs.MainLoop
 import Holpy.C15.Proofs.Solver
 import Holpy.C15.Proofs.Tseitin
